@@ -201,7 +201,8 @@ def tus(tier, seed):
 
 
 RULE = ("floating sources: every tie n+1/2 at the destination resolution, its two neighbours, quarters and integers around 0, around a lattice of "
-        "destination values and at the destination limits, plus structured floats; scaled sources: all values of 8/16-bit reps, lattice + ties "
+        "destination values and at the destination limits, plus structured floats; float -> scaled also n*2^(E-7) for all |n| <= 320, random |n| < 2^17 and the limits +- n/128 units, "
+        "at exponents that include the finest of each width (-63/-62 64-bit signed x every tag x every format, -64/-63 unsigned, -31/-30/-32 32-bit, -15/-16, -7/-8); scaled sources: all values of 8/16-bit reps, lattice + ties "
         "q*2^k + 2^(k-1) +- 1 otherwise; elastic_scaled_integer sources (128-bit values): multiples q*2^k, ties and their neighbours for q around 0, "
         "around half and at the top of the source's digits (both signs) and random q, the source limits, random values, for every shift 1..40 "
         "and the shifts 31, 32, 63, 64 of 32..100-digit sources; representations carrying the rounding mode -> fundamental integer: all values of "
